@@ -42,6 +42,18 @@ func (env *Env) MoqBin() (string, error) {
 	return moqBin, moqBuildErr
 }
 
+// cliEnv is the environment of replayed CLI runs: offline, no -mod flag (scratch modules are complete).
+func cliEnv() []string {
+	var env []string
+	for _, e := range os.Environ() {
+		if strings.HasPrefix(e, "GOFLAGS=") || strings.HasPrefix(e, "GOPROXY=") {
+			continue
+		}
+		env = append(env, e)
+	}
+	return append(env, "GOFLAGS=", "GOPROXY=off")
+}
+
 // CLICase is a concrete input for the real CLI: a file tree, a working directory and arguments.
 type CLICase struct {
 	Files   map[string]string `json:"files"`
@@ -51,6 +63,11 @@ type CLICase struct {
 	Timeout int               `json:"timeout_s,omitempty"`
 	// CheckBuild: after moq ran, `go build ./...` / `go vet` in Cwd must fail with Expect (output does not compile)
 	ThenBuild bool `json:"then_build,omitempty"`
+	// Setup / Post / Teardown are shell snippets run in the root of the materialised tree
+	// (Setup before moq, Post after it with its output appended, Teardown always last).
+	Setup    string `json:"setup,omitempty"`
+	Post     string `json:"post,omitempty"`
+	Teardown string `json:"teardown,omitempty"`
 }
 
 type CLIResult struct {
@@ -90,8 +107,20 @@ func (env *Env) RunCLI(c *CLICase) (*CLIResult, string, error) {
 		to = 120 * time.Second
 	}
 	cwd := filepath.Join(root, c.Cwd)
-	out, rerr := runCmd(cwd, to, goEnv(), bin, c.Args...)
+	if c.Teardown != "" {
+		defer runCmd(root, time.Minute, cliEnv(), "sh", "-c", c.Teardown)
+	}
+	if c.Setup != "" {
+		if sout, serr := runCmd(root, time.Minute, cliEnv(), "sh", "-c", c.Setup); serr != nil {
+			return nil, root, fmt.Errorf("setup failed: %v: %s", serr, sout)
+		}
+	}
+	out, rerr := runCmd(cwd, to, cliEnv(), bin, c.Args...)
 	res := &CLIResult{Out: out}
+	if c.Post != "" {
+		pout, _ := runCmd(root, time.Minute, cliEnv(), "sh", "-c", c.Post)
+		defer func() { res.Out += "\n--- post ---\n" + pout }()
+	}
 	if rerr != nil {
 		res.Exit = 1
 		if strings.Contains(rerr.Error(), "timeout") {
@@ -102,7 +131,7 @@ func (env *Env) RunCLI(c *CLICase) (*CLIResult, string, error) {
 		}
 	}
 	if c.ThenBuild {
-		bout, berr := runCmd(cwd, 5*time.Minute, goEnv(), "go", "vet", "./...")
+		bout, berr := runCmd(cwd, 5*time.Minute, cliEnv(), "go", "vet", "./...")
 		res.Out += "\n--- go vet ./... ---\n" + bout
 		if berr != nil {
 			res.Exit = 1
@@ -153,10 +182,29 @@ func (ic *IC) replayCLI(v *Violation, c *CLICase) {
 }
 
 // checkWitness re-runs the recorded witness of a known finding; true if it still fails as recorded.
+// Witness kinds: {"kind":"cli", ...CLICase} and {"kind":"fault", "case":FaultCase, "expect":"C17: ..."}.
 func (env *Env) checkWitness(kf *KnownFinding) (bool, string) {
 	b, err := json.Marshal(kf.Witness)
 	if err != nil || kf.Witness == nil {
 		return false, "no witness recorded"
+	}
+	var kind struct {
+		Kind   string     `json:"kind"`
+		Case   *FaultCase `json:"case"`
+		Expect string     `json:"expect"`
+	}
+	json.Unmarshal(b, &kind)
+	if kind.Kind == "fault" && kind.Case != nil {
+		findings, tr, err := env.runFaultCase(kind.Case)
+		if err != nil {
+			return false, err.Error()
+		}
+		for _, f := range findings {
+			if strings.Contains(f, kind.Expect) {
+				return true, f
+			}
+		}
+		return false, short(tr, 200)
 	}
 	var c CLICase
 	if err := json.Unmarshal(b, &c); err != nil || len(c.Files) == 0 {
